@@ -151,7 +151,7 @@ def anf_text(text, rel, fn_span, head, prefix, bind_root=False, nth=0, bind_oper
         n = strip(n)
         if n.kind != "bin":
             simple = (n.hi - n.lo == 1) or (n.hi - n.lo == 2 and toks[n.lo].text in ("&", "*", "-"))
-            if bind_operands and not simple and not is_root:
+            if (bind_operands and not simple and not is_root) or (bind_root and is_root and not simple):
                 counter[0] += 1
                 name = f"vx_{prefix}{counter[0]}"
                 lets.append(f"let {name} = {txt(n0)};")
